@@ -1,10 +1,74 @@
 //! pvc-ser: checks C18.  usage: pvc-ser <Cxx> --tier quick|thorough [--replay f] [--only family]
+#![feature(alloc_error_hook)]
 
 pub mod c18;
+pub mod scan;
+pub mod subjects;
 
 use pvc_engine::{Run, load_replay, parse_args};
+use std::alloc::{GlobalAlloc, Layout, System};
+
+/// A corrupted header can ask `read_from` for an arbitrarily large allocation (e.g. a seed count of 2^32-1).
+/// With the system allocator such a request either aborts the process (allocation failure is not a panic) or is
+/// served lazily by an overcommitting kernel, depending on the host. To make the outcome deterministic and
+/// attributable to one fault, single requests above 64 MiB (the harness itself never needs more than a few MiB at once) are refused here and the allocation-error hook turns the
+/// refusal into a panic that `pvc_engine::guarded` catches.
+struct Capped;
+const ALLOC_CAP: usize = 1 << 26;
+
+unsafe impl GlobalAlloc for Capped {
+    unsafe fn alloc(&self, l: Layout) -> *mut u8 {
+        if l.size() > ALLOC_CAP { std::ptr::null_mut() } else { unsafe { System.alloc(l) } }
+    }
+    unsafe fn dealloc(&self, p: *mut u8, l: Layout) {
+        unsafe { System.dealloc(p, l) }
+    }
+    unsafe fn alloc_zeroed(&self, l: Layout) -> *mut u8 {
+        if l.size() > ALLOC_CAP { std::ptr::null_mut() } else { unsafe { System.alloc_zeroed(l) } }
+    }
+    unsafe fn realloc(&self, p: *mut u8, l: Layout, n: usize) -> *mut u8 {
+        if n > ALLOC_CAP { std::ptr::null_mut() } else { unsafe { System.realloc(p, l, n) } }
+    }
+}
+
+#[global_allocator]
+static ALLOC: Capped = Capped;
+
+/// Machinery precondition of C18: every `ReaderFrom` type in the tree under test has a driver (and vice versa).
+/// Enforced before any family runs; a mismatch is a machinery failure (exit code 3), never a verdict.
+fn enforce_coverage() {
+    let cov = match std::panic::catch_unwind(|| scan::coverage(subjects::DRIVERS)) {
+        Ok(c) => c,
+        Err(_) => {
+            eprintln!("C18 machinery failure: source scan failed (see message above)");
+            std::process::exit(3);
+        }
+    };
+    let mut bad = false;
+    for t in &cov.missing_driver {
+        let at: Vec<String> = cov.readers.iter().filter(|h| &h.ty == t).map(|h| format!("{}:{}", h.file, h.line)).collect();
+        eprintln!("C18 machinery failure: ReaderFrom type `{t}` ({}) has no driver in pvc-ser/src/subjects.rs", at.join(", "));
+        bad = true;
+    }
+    for t in &cov.stale_driver {
+        eprintln!("C18 machinery failure: driver `{t}` has no `impl ReaderFrom for {t}` in the scanned sources");
+        bad = true;
+    }
+    for t in &cov.reader_without_writer {
+        eprintln!("C18 machinery failure: `{t}` implements ReaderFrom but no WriterTo was found");
+        bad = true;
+    }
+    if cov.readers.is_empty() {
+        eprintln!("C18 machinery failure: the source scan found no ReaderFrom impl under {}", scan::repo_root().display());
+        bad = true;
+    }
+    if bad {
+        std::process::exit(3);
+    }
+}
 
 fn main() {
+    std::alloc::set_alloc_error_hook(|l| panic!("memory allocation of {} bytes failed", l.size()));
     let args = parse_args();
     macro_rules! check {
         ($level:expr, $run:path, $replay:path) => {{
@@ -17,7 +81,10 @@ fn main() {
         }};
     }
     let code = match args.property.as_str() {
-        "C18" => check!("fault_enumeration", c18::run, c18::replay),
+        "C18" => {
+            enforce_coverage();
+            check!("fault_enumeration", c18::run, c18::replay)
+        }
         o => {
             eprintln!("pvc-ser: unknown property {o}");
             2
